@@ -63,6 +63,16 @@ def scenarios(seed, tier):
             s = gen.gen_portfolio(r2, tmax=12, tz_prob=0.1, allow_periodic=False, allow_freq=False)
         if r2.random() < 0.25:
             gen.make_late_start(s, r2)
+        if stream == 'uncoupled' and i % 8 == 4:
+            # a scaled asset held at a FIXED scale (so the scale couples nothing) with fixed costs, over a base that is active in
+            # part of the horizon only
+            g_ = s['grid']
+            base = gen.gen_simple_contract(r2, g_, s['prices'], g_['T_nominal'], 'fsc_b', s['nodes'][0])
+            base['args'].pop('start', None)
+            base['args'].pop('end', None)
+            gen.put_window(base['args'], gen.window(r2, g_, kinds=['inside', 'start_only', 'end_only']))
+            s['assets'].append({'type': 'ScaledAsset', 'name': 'fsc', 'base': base, 'args': {'min_scale': 1.0, 'max_scale': 1.0, 'norm_scale': 1.0, 'fix_costs': gen.q8(r2, 0.125, 1)}})
+            s['fixed_scaled'] = True
         s['stream'] = stream
         s['parts'] = r2.choice([2, 3, 3, 4, 5])
         s['odd'] = r2.random() < 0.4      # interval not aligned with the horizon
@@ -196,7 +206,7 @@ def run_case(scn, drv):
             w = SP.witness_check(rec, rs, drv)
             feats.append('witness:%s' % {True: 'true', False: 'false', None: 'none'}[w['witness']])
             r['evaluated'] += 1
-            if w['witness'] is False and scn['stream'] == 'uncoupled':
+            if w['witness'] is False and scn['stream'] == 'uncoupled' and not scn.get('fixed_scaled'):
                 # nothing couples the intervals by construction of the stream, yet the real unsplit problem is not the block sum
                 r['disagreements'].append({'component': 'split-witness', 'detail': 'uncoupled portfolio but splitWitness is false: ' + w['reason'][:300]})
             if w['witness'] is True:
@@ -255,7 +265,8 @@ def run_case(scn, drv):
         Vu = float(rec['res'].value)
         tolu = 2e-6 * max(1.0, abs(Vu), abs(Vs))
         if scn['stream'] == 'uncoupled' and abs(Vs - Vu) > tolu:
-            viol('nothing couples the intervals, but split value %.8g differs from unsplit %.8g' % (Vs, Vu), what='equals_unsplit')
+            viol('nothing couples the intervals, but split value %.8g differs from unsplit %.8g' % (Vs, Vu), what='equals_unsplit',
+                 fixed_scaled=bool(scn.get('fixed_scaled')), sign='split_higher' if Vs > Vu else 'split_lower')
         if scn['stream'] == 'blocks' and abs(Vs - Vu) > tolu:
             viol('storage blocks coincide with the intervals (start level = end level), nothing else couples them, but split value %.8g differs from unsplit %.8g' % (Vs, Vu),
                  what='equals_unsplit_blocks', sign='split_lower' if Vs < Vu else 'split_higher')
